@@ -6,6 +6,16 @@ the component's real Jacobian, and declared-constant blocks keep the estimate fo
 Problem. The cause is in site-packages/openmdao, not in /repo; the simulator makes the copy deep for
 ``val`` so the effect is not charged to OpenAeroStruct. Nothing on disk is touched.
 
+Second artefact (found by the C03 machine on its first batch, reproduced without OAS in ten lines):
+a component that mixes approximated (``method="cs"|"fd"``) and analytic partials gets its list of
+approximated columns filtered by the *relevance of the first compute_totals call* and cached
+(``System._get_approx_subjac_keys``); a later ``compute_totals`` / ``run_linearize`` with other
+of/wrt silently leaves the never-approximated columns at zero (d y/d a = 0 instead of 0.88 in the
+control). ``RotateToWindFrame``, ``VortexMesh``, ``EvalVelMtx`` and the wingbox components declare
+such partials, so OAS totals w.r.t. alpha are zero after a first ``compute_totals`` w.r.t. twist
+only. The cause is in site-packages/openmdao; the simulator makes the approximation set-up ignore
+relevance (all declared approximations are always computed).
+
 Switch off with VERIF_NO_OMPATCH=1 (used by the control-model self-check, which must then
 reproduce the leak).
 """
@@ -39,6 +49,16 @@ def apply():
 
     _setup._verif_patched = True
     dj._CheckingJacobian._setup = _setup
+
+    from openmdao.core.system import System
+
+    orig_keys = System._get_approx_subjac_keys
+
+    def _get_approx_subjac_keys(self, use_relevance=True, initialize=False):
+        return orig_keys(self, use_relevance=False, initialize=initialize)
+
+    _get_approx_subjac_keys._verif_patched = True
+    System._get_approx_subjac_keys = _get_approx_subjac_keys
     _applied = True
 
 
